@@ -36,10 +36,11 @@ stage = [
 
 
 def G(name, harness, expect, fns, unwind=7, timeout=1200, tier='quick', bounded=None):
-    return dict(name=name, harness=harness, enforce=[], dfcc=False, functions=fns, expect=expect, props=['C23'], unwind=unwind, timeout=timeout, tier=tier,
+    return dict(name=name, harness=harness, enforce=[], dfcc=False, functions=fns, expect=expect, props=['C23'], unwind=unwind, timeout=timeout, tier=tier, replay=dict(driver='replay.cpp', case=name, vars=[], repo_sources=RS, libs=['-lboost_thread', '-lboost_system']),
                 bounded=bounded or 'publication list of the kernel head record plus <= 3 records (each present or not, state and request symbolic); <= 2 combining passes; interference budget 2')
 
 
+RS = ['src/hp.cpp', 'src/init.cpp', 'src/thread_data.cpp', 'src/hp_thread_local.cpp', 'src/dhp.cpp', 'src/topology_linux.cpp', 'src/urcu_gp.cpp', 'src/urcu_sh.cpp']
 UNIT = dict(
     properties=['C23'],
     stage=stage,
